@@ -21,6 +21,7 @@ import (
 	"errors"
 	"fmt"
 	"math/rand"
+	"os"
 	"reflect"
 	"sort"
 	"strconv"
@@ -40,8 +41,6 @@ import (
 
 // c12Base is the fixed "now" of every miniredis instance (EXPIREAT is computed
 // against it), so TTLs on both sides are exactly comparable.
-const c12ShardPass = "c12-secret"
-
 var c12Base = time.Unix(1_000_000_000, 0).UTC()
 
 // ---------------------------------------------------------------------------
@@ -250,6 +249,14 @@ type c12World struct {
 	admin  []*red.Client          // harness-only clients on the A servers (SCRIPT FLUSH between histories)
 	ccli   *red.ClusterClient     // go-redis cluster client on B: the reference for Type=cluster histories
 
+	// pass: every server of a world requires AUTH with a per-world password. The
+	// machine is shared: a client of another test process that reconnects to a port
+	// it used before (now ours) must not be able to write to these servers, and its
+	// commands are not the wrapper's (seen once: a token-limit EVAL of another run
+	// arriving on side A).
+	pass    string
+	foreign int64 // commands from unauthenticated connections, ignored by the wire oracle
+
 	// wire oracle: every command (name + arguments) that reaches a server, recorded
 	// through miniredis' PreHook, side A (all shards, arrival order) and side B
 	wmu   sync.Mutex
@@ -261,8 +268,14 @@ type c12World struct {
 var c12Housekeeping = map[string]bool{"HELLO": true, "AUTH": true, "SELECT": true, "CLIENT": true, "COMMAND": true, "CLUSTER": true, "READONLY": true, "READWRITE": true}
 
 func (w *c12World) hook(dst *[][]string) server.Hook {
-	return func(_ *server.Peer, cmd string, args ...string) bool {
+	return func(p *server.Peer, cmd string, args ...string) bool {
 		if !c12Housekeeping[cmd] {
+			if known, auth := c12PeerAuthenticated(p); known && !auth {
+				w.wmu.Lock()
+				w.foreign++
+				w.wmu.Unlock()
+				return false // miniredis answers NOAUTH
+			}
 			w.wmu.Lock()
 			*dst = append(*dst, append([]string{cmd}, args...))
 			w.wmu.Unlock()
@@ -270,6 +283,25 @@ func (w *c12World) hook(dst *[][]string) server.Hook {
 		return false
 	}
 }
+
+// c12PeerAuthenticated reads miniredis' per-connection state (unexported, through
+// reflect; unknown layout => known=false and everything is recorded as before).
+func c12PeerAuthenticated(p *server.Peer) (known, auth bool) {
+	v := reflect.ValueOf(p.Ctx)
+	if !v.IsValid() || v.Kind() != reflect.Ptr || v.IsNil() {
+		return true, false // no command handled on this connection yet: not authenticated
+	}
+	if v.Elem().Kind() != reflect.Struct {
+		return false, false
+	}
+	f := v.Elem().FieldByName("authenticated")
+	if !f.IsValid() || f.Kind() != reflect.Bool {
+		return false, false
+	}
+	return true, f.Bool()
+}
+
+var c12WorldSeq int64
 
 func (w *c12World) wireReset() {
 	w.wmu.Lock()
@@ -360,29 +392,27 @@ func c12WireStr(cs [][]string) string {
 }
 
 func c12NewWorld(nShards int) (*c12World, error) {
-	w := &c12World{}
+	c12WorldSeq++
+	w := &c12World{pass: fmt.Sprintf("c12-%d-%d-%d", os.Getpid(), c12WorldSeq, time.Now().UnixNano())}
 	for i := 0; i < nShards; i++ {
 		s, err := miniredis.Run()
 		if err != nil {
 			return nil, err
 		}
-		pw := ""
-		if i == 3 { // configuration with a password: the fourth kv shard requires AUTH
-			pw = c12ShardPass
-			s.RequireAuth(pw)
-		}
+		s.RequireAuth(w.pass)
 		s.Server().SetPreHook(w.hook(&w.wireA))
 		w.shards = append(w.shards, s)
-		w.admin = append(w.admin, red.NewClient(&red.Options{Addr: s.Addr(), Password: pw}))
+		w.admin = append(w.admin, red.NewClient(&red.Options{Addr: s.Addr(), Password: w.pass}))
 	}
 	b, err := miniredis.Run()
 	if err != nil {
 		return nil, err
 	}
 	w.mrB = b
+	b.RequireAuth(w.pass)
 	b.Server().SetPreHook(w.hook(&w.wireB))
-	w.cli = red.NewClient(&red.Options{Addr: b.Addr()})
-	w.ccli = red.NewClusterClient(&red.ClusterOptions{Addrs: []string{b.Addr()}})
+	w.cli = red.NewClient(&red.Options{Addr: b.Addr(), Password: w.pass})
+	w.ccli = red.NewClusterClient(&red.ClusterOptions{Addrs: []string{b.Addr()}, Password: w.pass})
 	return w, nil
 }
 
@@ -1005,9 +1035,9 @@ func c12RedisSide(w *c12World, cluster bool) (*c12Side, error) {
 	addr := w.shards[0].Addr()
 	mk := func() reflect.Value {
 		if cluster { // Type=cluster: go-redis ClusterClient; miniredis answers CLUSTER SLOTS with itself for all slots
-			return reflect.ValueOf(redis.New(addr, redis.WithCluster()))
+			return reflect.ValueOf(redis.New(addr, redis.WithCluster(), redis.WithPass(w.pass)))
 		}
-		return reflect.ValueOf(redis.New(addr))
+		return reflect.ValueOf(redis.New(addr, redis.WithPass(w.pass)))
 	}
 	s := &c12Side{kind: "redis", obj: mk(), rebuild: mk, servers: w.shards[:1], cluster: cluster}
 	return s, nil
@@ -1025,12 +1055,8 @@ func c12KVSide(w *c12World, r *rand.Rand) (*c12Side, string) {
 			wt = 100
 		}
 		ws = append(ws, wt)
-		pw := ""
-		if i == 3 {
-			pw = c12ShardPass
-		}
 		conf = append(conf, cache.NodeConfig{
-			Config: redis.Config{Host: w.shards[i].Addr(), Type: redis.NodeType, Pass: pw},
+			Config: redis.Config{Host: w.shards[i].Addr(), Type: redis.NodeType, Pass: w.pass},
 			Weight: wt,
 		})
 		servers = append(servers, w.shards[i])
